@@ -11,7 +11,8 @@ ANCHOR_FILES = ['config.py', 'config_parser.py']
 RULE = ('1-2 consumer probes and 2-3 target probes (all parameters defaulted); target parameters bound per scope; '
         'consumer parameters bound to values in which @target / @scope/target() references are nested inside lists, '
         'tuples and dict keys/values, targets possibly referring to further targets (acyclic, depth <= 3); 2-5 consuming '
-        'calls under random ambient scopes with random caller-supplied parameters (positional / keyword), every probe '
+        'calls under random ambient scopes with random caller-supplied parameters (positional / keyword, some of them '
+        'gin.REQUIRED), some bindings parsed with skip_unknown=True, every probe '
         'mutating each container it receives; the full per-target call log, the store and queries are observed. '
         'non-trivial = at least one evaluated reference nested in a container is evaluated and at least one call '
         'overrides a reference-bound parameter; distinct = canonical ops')
@@ -90,12 +91,14 @@ def gen_case(rng):
                     'val': gen_refval(rng, targets), '_form': rng.choice(['text', 'text', 'tuple', 'block']),
                     'block': False})
         ops[-1]['block'] = ops[-1]['_form'] == 'block'
+        if ops[-1]['_form'] in ('text', 'block') and rng.random() < 0.3:
+          ops[-1]['_skip'] = True   # every name is known: skip_unknown must change nothing
         if rng.random() < 0.25:
           ops[-1]['_parse_enter'] = [{'k': 'name', 'v': rng.choice(['setup', 'a', 'c/b'])}]
   ops.append({'op': 'config'})
   for _ in range(rng.randint(2, 5)):
     c = rng.choice(consumers)
-    call = G.gen_call(rng, c, G.gen_enter(rng, rng.choice(scopes)), w_bad=0.0)
+    call = G.gen_call(rng, c, G.gen_enter(rng, rng.choice(scopes)), w_required=rng.choice([0.0, 0.0, 0.3]), w_bad=0.0)
     call['op'] = 'ecall'
     call['_mutate'] = True
     ops.append(call)
@@ -151,7 +154,8 @@ def oracle(case, impl):
           scope = []
       ov = _overlay(binds, reg['_selector'], scope)
       posnames = [p[0] for p in reg['sig']['pos']]
-      supplied = set(posnames[:len(op['args'])]) | {n for n, _ in op['kwargs']}
+      supplied = ({n for n, v in zip(posnames, op['args']) if v != G.REQ} |
+                  {n for n, v in op['kwargs'] if v != G.REQ})
       refs = []
       for n, v in ov.items():
         if n not in supplied:
